@@ -381,9 +381,123 @@ func init() {
 		e := genDExhaustive(k*8+sh, id, cnt, emit)
 		return e.finds, true
 	}
+	suites["d-large"] = func(r *rng, id string, cnt counters, emit func(line, out string)) ([]finding, bool) {
+		e := genDLarge(r, r.chance(50), id, cnt, emit)
+		return e.finds, true
+	}
 	suites["c07"] = func(r *rng, id string, cnt counters, emit func(line, out string)) ([]finding, bool) {
 		b := cnt["c07.roundtrip.ok"] + cnt["c07.known.neverfits"]
 		e := genC07Script(r, id, cnt, emit)
 		return e.finds, cnt["c07.roundtrip.ok"]+cnt["c07.known.neverfits"] > b
 	}
+}
+
+// genDLarge drives a DecoderBuffer (D) or a Decoder (DD) at LARGE geometry with generated payloads:
+// matches of several hundred KiB with small and large, power-of-two and odd offsets (the doubling
+// copy), writes and literal runs around BufferSize-WindowSize, tight buffers with a large window.
+// Byte strings above 4 KiB are compared by length and hash.
+func genDLarge(r *rng, dd bool, id string, cnt counters, emit func(line, out string)) *dExec {
+	type geo struct{ w, b int }
+	g := []geo{{0, 0}, {40000, 40000 + r.rangeIn(1, 20)}, {65536, 131072}, {65535, 65536 + r.rangeIn(1, 9)},
+		{300000, 300000 + r.rangeIn(1, 500000)}, {1 << 20, 2 << 20}, {5000, 5000 + r.rangeIn(1, 3)}}[r.intn(7)]
+	var header string
+	if dd {
+		header = fmt.Sprintf("S %s DD %d %d 0 -", id, g.w, g.b)
+	} else {
+		header = fmt.Sprintf("S %s D %d %d 0", id, g.w, g.b)
+	}
+	e, st := newDExec(header, cnt)
+	emit(header, st)
+	if e.dead {
+		emit("E", "E")
+		return e
+	}
+	do := func(line string) string {
+		out := e.step(line)
+		emit(line, out)
+		return out
+	}
+	seed := 0
+	pay := func(n int) string {
+		if n <= 0 {
+			return "-"
+		}
+		seed++
+		return fmt.Sprintf("%s%d:%d", r.pickS("#", "#", "@"), seed*13+r.intn(50), n)
+	}
+	W := e.buf.WindowSize
+	budget := 3_500_000 // bytes written per script
+	nops := r.rangeIn(4, 12)
+	for k := 0; k < nops && !e.dead && budget > 0; k++ {
+		B := e.buf.BufferSize
+		room := B - W
+		avail := min(W, len(e.written))
+		x := r.intn(100)
+		switch {
+		case x < 25 || avail == 0:
+			n := r.pick(1, 1000, 4096, 4097, 70000, 300000, room-1, room, room+1, r.rangeIn(1, 200000))
+			if n > budget {
+				n = budget
+			}
+			if dd && room < 256 && n > 200*room {
+				n = 200 * room // a Decoder feeds its buffer in chunks of BufferSize-WindowSize: keep the model fast
+			}
+			do("w " + pay(n))
+			budget -= n
+		case x < 60:
+			o := r.pick(1, 2, 3, 5, 7, 12, 1000, 1009, 4096, 65537, 150001, avail, r.rangeIn(1, avail))
+			if o > avail {
+				o = r.pick(avail, 1, min(3, avail))
+			}
+			m := r.pick(o+1, 2*o+1, 70000, 131073, 200000, 300003, 400000, 600001, 900000, room, room+1)
+			if m > budget {
+				m = budget
+			}
+			if dd {
+				do(fmt.Sprintf("wblk 0:%d:%d:0 -", m, o))
+			} else {
+				do(fmt.Sprintf("wm %d %d", m, o))
+			}
+			budget -= m
+		case x < 75:
+			// a block: literals + long match + literals
+			ll := r.pick(0, 1, 5000, 70000)
+			o := r.pick(1, 3, 7, 1009, 65537)
+			if o > avail+ll {
+				o = max(1, min(avail+ll, 3))
+			}
+			m := r.pick(3, 70000, 200001, 500000)
+			tl := r.pick(0, 0, 1, 9000)
+			if dd && room < 256 {
+				ll, tl = min(ll, 100*room), min(tl, 100*room)
+			}
+			if avail+ll == 0 {
+				m = 0
+				o = 0
+			}
+			do(fmt.Sprintf("wblk %d:%d:%d:0 %s", ll, m, o, pay(ll+tl)))
+			budget -= ll + m + tl
+		case x < 95:
+			if dd {
+				do("flush")
+			} else {
+				unread := len(e.written) - e.delivered
+				do(fmt.Sprintf("rd %d", r.pick(unread, unread, unread/2, 100000, 1)))
+			}
+		default:
+			if dd {
+				do("reset -")
+			} else {
+				do("reset")
+			}
+		}
+	}
+	if dd {
+		do("flush")
+	} else {
+		do(fmt.Sprintf("rd %d", len(e.written)-e.delivered))
+	}
+	cnt.inc("d.large")
+	emit("E", "E")
+	return e
 }
